@@ -62,7 +62,48 @@ func Float64ListToDecimalIntList(dst []int64, src []float64) ([]int64, int16, er
 		}
 		decimals[i] = scaled
 	}
+	// float64(mantissa) and the power of ten are both rounded, so mantissa*10^exponent can
+	// land one ulp away from the source (e.g. 1.5e-30, 123456789.12345679). The decimal form
+	// is only lossless if decoding restores every value exactly; otherwise refuse,
+	// so that callers fall back to the plain encoding.
+	if !decimalsRestore(decimals, minExp, src) {
+		return nil, 0, errCannotEncodeLossless
+	}
 	return decimals, minExp, nil
+}
+
+// decimalsRestore reports whether DecimalIntListToFloat64List would return exactly want.
+func decimalsRestore(values []int64, exponent int16, want []float64) bool {
+	var divisorsBuf [4]float64
+	scale, divisors := decimalScale(exponent, divisorsBuf[:0])
+	for i, v := range values {
+		// Numeric comparison: -0.0 is deliberately encoded like +0.0.
+		if restoreDecimal(v, scale, divisors) != want[i] {
+			return false
+		}
+	}
+	return true
+}
+
+// decimalScale returns the multiplier for a non-negative exponent, or the chunked divisors
+// for a negative one.
+func decimalScale(exponent int16, buf []float64) (float64, []float64) {
+	if exponent >= 0 {
+		return math.Pow10(int(exponent)), nil
+	}
+	return 0, computeDivisors(int(-exponent), buf)
+}
+
+// restoreDecimal computes v * 10^exponent the way the decoder does.
+func restoreDecimal(v int64, scale float64, divisors []float64) float64 {
+	if divisors == nil {
+		return float64(v) * scale
+	}
+	result := float64(v)
+	for _, d := range divisors {
+		result /= d
+	}
+	return result
 }
 
 // DecimalIntListToFloat64List restores float64 values from scaled int64s using a decimal exponent.
@@ -72,21 +113,10 @@ func DecimalIntListToFloat64List(dst []float64, values []int64, exponent int16, 
 	if len(values) == 0 {
 		return dst[:0], nil
 	}
-	if exponent >= 0 {
-		scale := math.Pow10(int(exponent))
-		for _, v := range values {
-			dst = append(dst, float64(v)*scale)
-		}
-	} else {
-		var divisorsBuf [4]float64
-		divisors := computeDivisors(int(-exponent), divisorsBuf[:0])
-		for _, v := range values {
-			result := float64(v)
-			for _, d := range divisors {
-				result /= d
-			}
-			dst = append(dst, result)
-		}
+	var divisorsBuf [4]float64
+	scale, divisors := decimalScale(exponent, divisorsBuf[:0])
+	for _, v := range values {
+		dst = append(dst, restoreDecimal(v, scale, divisors))
 	}
 	return dst, nil
 }
